@@ -15,15 +15,15 @@ def c17(tier):
     runs = []
     if tier == "quick":
         # part A: serialisation round trips under ASan+UBSan (single process, no MPI)
-        runs.append(H("c17_ser", "dist-asan", 1600, timeout_per_case=20, timeout_base=120))
+        runs.append(H("c17_ser", "dist-asan", 4000, params=dict(special_period=80), timeout_per_case=0.2, timeout_base=180))
         # part B: the network layer, 1..4 hosts (np x busy threads kept around 8: every host also spins a communication thread)
-        runs.append(net("dist", 1, 40, 4))
-        runs.append(net("dist", 2, 50, 3))
-        runs.append(net("dist", 3, 30, 2))
-        runs.append(net("dist", 4, 30, 2))
+        runs.append(net("dist", 1, 100, 4))
+        runs.append(net("dist", 2, 140, 3))
+        runs.append(net("dist", 3, 80, 2))
+        runs.append(net("dist", 4, 60, 2))
     else:
-        runs.append(H("c17_ser", "dist-asan", 16000, params=dict(special_period=400), timeout_per_case=20, timeout_base=120))
-        runs.append(H("c17_ser", "dist", 30000, params=dict(special_period=400), timeout_per_case=20, timeout_base=120))
+        runs.append(H("c17_ser", "dist-asan", 60000, params=dict(special_period=1500), timeout_per_case=0.1, timeout_base=300))
+        runs.append(H("c17_ser", "dist", 100000, params=dict(special_period=2500), timeout_per_case=0.1, timeout_base=300))
         runs.append(net("dist", 1, 300, 4))
         runs.append(net("dist", 2, 400, 4))
         runs.append(net("dist", 3, 300, 3))
